@@ -640,10 +640,19 @@ def b_frozenset(it, x=()):
     raise Unsupported("frozenset() of symbolic values")
 
 
+def b_round(it, x, ndigits=None):
+    if not is_z3(x):
+        return round(x, ndigits) if ndigits is not None else round(x)
+    if ndigits is not None:
+        raise Unsupported("round() with ndigits on a symbolic value")
+    r = np_round(it, x)
+    return z3.ToInt(r)
+
+
 BUILTINS = {
     "len": b_len, "sum": b_sum, "all": b_all, "any": b_any, "max": b_max, "min": b_min, "abs": b_abs, "float": b_float, "int": b_int,
     "isinstance": b_isinstance, "range": b_range, "zip": b_zip, "enumerate": b_enumerate, "list": b_list, "tuple": b_tuple, "dict": b_dict,
-    "set": b_set, "sorted": b_sorted, "hasattr": b_hasattr, "print": b_print, "bool": b_bool, "str": b_str, "bin": b_bin, "frozenset": b_frozenset,
+    "round": b_round, "set": b_set, "sorted": b_sorted, "hasattr": b_hasattr, "print": b_print, "bool": b_bool, "str": b_str, "bin": b_bin, "frozenset": b_frozenset,
 }
 
 
@@ -967,7 +976,12 @@ def np_round(it, x, decimals=0):
         return round(x, decimals)
     if decimals != 0:
         raise Unsupported("np.round with decimals")
+    memo = it.__dict__.setdefault("_round_memo", {})
+    key = to_real(x).get_id()
+    if key in memo:
+        return z3.ToReal(memo[key][1])  # round() is a function: the same argument gives the same integer
     r = core.fresh("round", z3.IntSort())
+    memo[key] = (x, r)
     it.facts.append(z3.And(to_real(x) - z3.ToReal(r) <= z3.RealVal("1/2"), z3.ToReal(r) - to_real(x) <= z3.RealVal("1/2")))
     it.assumptions_log.add("np.round(x): an integer within 1/2 of x (either neighbour on ties)")
     return z3.ToReal(r)
